@@ -77,15 +77,18 @@ def gen_abs_frame(rng):
             lv["dtype"], lv["vals"] = "int64", []
         fill = {"int64": A.vint(j), "float64": A.vflt(4 * j), "str": A.vstr("k"), "datetime": A.vts(j)}[lv["dtype"]]
         lv["vals"] = (lv["vals"] + [fill] * n)[:n]
-        if k > 1:
+        if k > 1 and rng.random() < 0.6:
             lv["vals"] = [fill if v == A.NULL else v for v in lv["vals"]]
         index.append({"name": lv["name"], "dtype": lv["dtype"], "vals": lv["vals"]})
-    return {"kind": "abs", "frame": {"cols": cols, "index": index, "nrows": n}}
+    case = {"kind": "abs", "frame": {"cols": cols, "index": index, "nrows": n}}
+    if n >= 3 and rng.random() < 0.3:
+        case["slice"] = [1, n - 1]          # validate / infer on df.iloc[1:n-1] (keeps the parent's index levels)
+    return case
 
 
 def wild_frames(rng):
     """frames outside the abstract universe (P_impl only)"""
-    n = rng.choice([1, 2, 3, 4])
+    n = rng.choice([1, 2, 3, 4, 5])
     pick = lambda xs: [rng.choice(xs) for _ in range(n)]  # noqa: E731
     makers = {
         "category": lambda: pd.Categorical(pick(["x", "y", "z", None])),
@@ -102,7 +105,9 @@ def wild_frames(rng):
         "uint64": lambda: np.array(pick([0, 2 ** 64 - 1, 2 ** 53 + 1]), dtype="uint64"),
         "dt-subsecond": lambda: pd.DatetimeIndex(pick([pd.Timestamp("2021-06-01 12:00:00.123456789"),
                                                         pd.Timestamp("1999-12-31 23:59:59.999999999"), pd.NaT,
-                                                        pd.Timestamp("2021-06-01 12:00:00.5")])),
+                                                        pd.Timestamp("2021-06-01 12:00:00.5"),
+                                                        pd.Timestamp("2030-03-04 05:06:07.000000123"),
+                                                        pd.Timestamp("2030-03-04 05:06:07.000123")])),
         "dt-tz": lambda: pd.DatetimeIndex(pick([pd.Timestamp("2021-06-01 12:00:00"), pd.Timestamp("2020-02-29 01:30:00.25"),
                                                  pd.NaT])).tz_localize(rng.choice(["UTC", "Europe/Berlin", "Asia/Kolkata"])),
         "obj-ints": lambda: pd.Series(pick([1, 2, 3]), dtype=object),
@@ -126,7 +131,7 @@ def wild_frames(rng):
         if cols else pd.DataFrame(index=range(n))
     for k, v in cols.items():
         df[k] = pd.Series(v).values if not hasattr(v, "dtype") or str(getattr(v, "dtype", "")) == "object" else v
-    ix = rng.choice(["range", "str", "dt", "multi", "float-nan"])
+    ix = rng.choice(["range", "str", "dt", "multi", "float-nan", "multi-null", "dt-ns"])
     m = len(df)
     if ix == "str":
         df.index = pd.Index([f"r{i}" for i in range(m)], name=rng.choice([None, "key"]))
@@ -136,6 +141,16 @@ def wild_frames(rng):
         df.index = pd.MultiIndex.from_arrays([list(range(m)), [f"k{i % 2}" for i in range(m)]], names=["i", "j"])
     elif ix == "float-nan" and m:
         df.index = pd.Index([1.5 * i if i else np.nan for i in range(m)])
+    elif ix == "multi-null" and m:
+        df.index = pd.MultiIndex.from_arrays([[float(i) if i else np.nan for i in range(m)],
+                                              [f"k{i % 2}" if i != 1 else None for i in range(m)]], names=["i", "j"])
+    elif ix == "dt-ns" and m:
+        df.index = pd.DatetimeIndex([pd.Timestamp("2020-01-01 00:00:00.000000001") + pd.Timedelta(nanoseconds=7 * i)
+                                     for i in range(m)])
+    if m >= 3 and rng.random() < 0.35:
+        # a frame sliced out of a larger one keeps the parent's unused index levels / categories
+        df = df.iloc[1:m - 1 if m > 3 else m]
+        return {"kind": "wild", "label": "+".join(kinds) + "/" + ix + "-sliced", "df": df}
     return {"kind": "wild", "label": "+".join(kinds) + "/" + ix, "df": df}
 
 
@@ -246,6 +261,12 @@ def run_abs(rep, cases):
         fr = c["frame"]
         try:
             df = A.frame_of(fr)
+            if c.get("slice"):
+                a_, b_ = c["slice"]
+                df = df.iloc[a_:b_]
+                fr = {"cols": [dict(col, vals=col["vals"][a_:b_]) for col in fr["cols"]],
+                      "index": [dict(l, vals=l["vals"][a_:b_]) for l in fr["index"]], "nrows": b_ - a_}
+                rep.count("abs:sliced")
         except Exception as e:  # noqa: BLE001
             rep.count("abs:unbuildable:" + type(e).__name__)
             continue
@@ -260,6 +281,8 @@ def run_abs(rep, cases):
         comps = components(S)
         arrays = [(col["dtype"], col["vals"]) for col in fr["cols"]] + [(l["dtype"], l["vals"]) for l in fr["index"]]
         for (where, comp), (dt, vals) in zip(comps, arrays):
+            if where.startswith("index") and len(fr["index"]) > 1 and all(v == A.NULL for v in vals):
+                continue        # an all-null MultiIndex level has no dtype of its own (pandas stores float NaN)
             dcases.append({"dtype": dt, "vals": vals})
             meta.append((ci, where, comp, dt))
     ans = run_driver("C14", dcases) if dcases else []
